@@ -440,6 +440,30 @@ def oracle_og(pc, h, p, L, R, np_seed, exact, exact_cost=None, rt32=None):
                 if not (cost <= ceq if exact_cost else cost <= ceq * (1 + rt_cost)):
                     out.append(("og:cost-worse-than-equal-split", "cost of the returned layers %r > cost of the equal split %r "
                                 "(N=%d, L=%d, R=%d, numpy seed %s)" % (cost, ceq, N, L, R, np_seed)))
+    elif increasing and numpy.all(numpy.asarray(p, dtype=float) >= 0) and not any(k == "og:total-cn2" for k, _ in out):
+        # round 6 — profiles with zero-strength layers (empty bins of a measured profile): where a zero layer goes changes neither the sums
+        # nor the cost, so the grouping of the layers that DO carry turbulence is recovered from the strengths, and the cost of the
+        # returned layers (each turbulent layer against the returned height of its group) must not exceed the equal split's either.
+        # (Seeded change C18-K: the cost kernel skipped zero-strength candidates and left their cost entries at 0, so any group
+        # holding an empty bin looked free; only this clause sees it — L layers, the total and the heights stay right.)
+        hf, pf = numpy.asarray(h, dtype=float), numpy.asarray(p, dtype=float)
+        pos = [j for j in range(N) if pf[j] > 0]
+        cost, j, okp = 0.0, 0, True
+        for l, c in enumerate(cL.tolist()):
+            acc = 0.0
+            while j < len(pos) and (acc < c if exact else acc < c * (1 - rt_tot)):
+                acc += float(pf[pos[j]])
+                cost += float(pf[pos[j]]) * abs(float(hf[pos[j]]) - float(hL[l]))
+                j += 1
+            if not (acc == c if exact else _isclose(acc, c, rt_part) or (c == 0 and acc == 0)):
+                okp = False
+                break
+        if okp and j == len(pos):
+            eq = numpy.linspace(0, N, int(L) + 1, dtype=int)[1:-1]
+            ceq = splits_cost(hf, pf, eq, N)
+            if not (cost <= ceq if exact_cost else cost <= ceq * (1 + rt_cost) + 1e-300):
+                out.append(("og:cost-worse-than-equal-split", "cost of the returned layers %r > cost of the equal split %r (N=%d with %d "
+                            "zero-strength layers, L=%d, R=%d, numpy seed %s)" % (cost, ceq, N, N - len(pos), L, R, np_seed)))
     return out
 
 
